@@ -162,6 +162,34 @@ def mutations(design, rng, limit_per_class):
                     d = mutated(["pref", o["name"], cands[0]])
                     d["modules"][mi]["insts"][m["insts"].index(o)]["conns"][cands[0]] = ["nc", 9999, None]
                     add("referenced-noconn", site, d, "noconn-referenced")
+                    # ... and referenced indirectly: through a slice, inside a concatenation
+                    qw = osp[cands[0]]
+                    pr = ["pref", o["name"], cands[0]]
+                    forms = {"sliced": ["slice", pr, [None, None, None]],
+                             "cat": ["cat", pr] if qw == 1 else ["cat", ["slice", pr, [0, 1, None]], ["slice", pr, [1, qw, None]]],
+                             "cat-mixed": ["cat", ["slice", pr, 0], ["sig", "zzx%d" % (qw - 1)]] if qw > 1 else None}
+                    for fname, fe in forms.items():
+                        if fe is None:
+                            continue
+                        d = mutated(fe, extra_sigs=[["zzx%d" % (qw - 1), qw - 1]] if fname == "cat-mixed" else ())
+                        d["modules"][mi]["insts"][m["insts"].index(o)]["conns"][cands[0]] = ["nc", 9999, None]
+                        add("referenced-noconn-" + fname, site, d, "noconn-referenced")
+        # a no-connected port referenced as a member of an anonymous bundle
+        if inst.get("kind", "single") == "single" and pkind == "bundle" and e[0] == "anon":
+            others = [i2 for i2 in m["insts"] if i2 is not inst and i2.get("kind", "single") == "single"]
+            k = sorted(e[1])[0]
+            sub = e[1][k]
+            wsub = width_of(design, m, sub) if sub[0] not in ("bun", "anon", "nc") else None
+            for o in others:
+                osp, _ = refsem.iface(design, o["of"])
+                cands = [q for q, qw in osp.items() if qw == wsub]
+                if cands:
+                    e5 = copy.deepcopy(e)
+                    e5[1][k] = ["pref", o["name"], cands[0]]
+                    d = mutated(e5)
+                    d["modules"][mi]["insts"][m["insts"].index(o)]["conns"][cands[0]] = ["nc", 9999, None]
+                    add("referenced-noconn-anon", site, d, "noconn-referenced")
+                    break
     # whole-design faults
     for mi, m in enumerate(design["modules"]):
         d = copy.deepcopy(design)
